@@ -4,7 +4,7 @@ import B6.Model.Search
 Driver for C06.  One case = one index, then any number of (query, call sequence) blocks.
 
 ops (tokens are written with a leading `'` so that the empty token/prefix is a word; values are naturals):
-  `index <array|tree> 'tok ( v v v ) 'tok ( ) …`   answer `ok`         tokens and values in increasing order
+  `index <array|tree|compact> 'tok ( v v v ) 'tok ( ) …`   answer `ok`         tokens and values in increasing order
   `query <q>`                                       answer `ok`         q ::= ( e ) | ( a 'tok ) | ( u q* ) | ( i q* )
                                                                               | ( r <begin> <end> q ) | ( p 'prefix )
   `next`                                            answer `true <v>` | `false` | `panic`
@@ -132,7 +132,9 @@ def stepCall (st : St) (r : Run) (call : Call) (impl : String) : St × Verdict :
 def step (st : St) (op impl : String) : St × Verdict :=
   match words op with
   | "index" :: kind :: rest =>
-    let k? : Option LeafKind := if kind == "array" then some .array else if kind == "tree" then some .tree else none
+    let k? : Option LeafKind :=
+      if kind == "array" then some .array else if kind == "tree" then some .tree
+      else if kind == "compact" then some .compact else none
     match k?, parseLists rest [] with
     | some k, some lists =>
       let ix : Index := ⟨k, lists⟩
